@@ -779,9 +779,16 @@ func (p *Parser) evaluateImports(ctx context) ([]Statement, error) {
 		case STATEMENT_TYPE_VAR_DEFINITION:
 			definedVariable := statement.(VariableDefinition)
 
+			// Only the copy of a definition that has been seen before defines nothing new (a definition
+			// always introduces at least one variable, a, b := ... may name one that exists already).
+			exists = len(definedVariable.Variables()) > 0
+
 			for _, variable := range definedVariable.Variables() {
 				name := variable.Name()
-				exists = definedVariables[name]
+
+				if !definedVariables[name] {
+					exists = false
+				}
 				definedVariables[name] = true
 
 				if _, known := ctx.variables[name]; !known && variable.Public() {
